@@ -111,7 +111,33 @@ def replay_front(data):
         a3 = np.asarray(cs.quasirandom(6, 2, method=method, seed=9), float)
         if a3.shape != ref.shape or not np.array_equal(a3, ref):
             bad.append("quasirandom(6, 2, %s, seed=9) after the caller modified the array of an earlier identical call: different points (answers are shared between calls)" % method)
-    return bool(bad), bad
+    bad += _front_history()
+    return bool(bad), bad[:4]
+
+
+def _front_history():
+    """results depend only on (seed, dimension): a history of calls with other windows and dimensions in the same process must
+    not change what a later call returns (each answer is compared with the single-point generators taken from their own modules,
+    not through the front end)"""
+    import chmpy.sampling as cs
+    from chmpy.sampling._sobol import quasirandom_sobol
+    from chmpy.sampling._lds import quasirandom_kgf
+    single = {"sobol": quasirandom_sobol, "kgf": quasirandom_kgf}
+    bad = []
+    hist = [(128, 5, 1), (100, 3, 17), (7, 5, 120), (3, 8, 2), (40, 2, 90), (1, 4, 33), (64, 6, 1), (10, 3, 5), (12, 6, 60)]
+    for method in ("kgf", "sobol"):
+        for n, d, seed0 in hist:
+            try:
+                a = np.asarray(cs.quasirandom(n, d, method=method, seed=seed0), float)
+                b = np.array([np.asarray(single[method](seed0 + k, d), float) for k in range(n)])
+            except Exception as e:
+                bad.append("quasirandom(%d, %d, %s, seed=%d) after other calls raises %s: %s" % (n, d, method, seed0, type(e).__name__, e))
+                break
+            if a.shape != b.shape or not np.array_equal(a, b):
+                bad.append("quasirandom(%d, %d, %s, seed=%d) called after calls with other windows / dimensions is not the points of seeds %d..%d "
+                           "(the answer depends on the calls made before)" % (n, d, method, seed0, seed0, seed0 + n - 1))
+                break
+    return bad
 
 
 REPLAY = {"sobol": replay_sobol, "kgf": replay_kgf, "front": replay_front}
@@ -426,5 +452,13 @@ def front_part(ctx):
                 r = ctx.query("front end (%s): quasirandom(%d, d2, seed) returns the points of seeds seed..seed+%d, for all seeds" % (method, d1, d1 - 1),
                               p.pc, goal)
                 bad = bad or r.verdict == "cex"
+    # histories: the symbolic lemma above is about one call on a fresh module (and is inconclusive when the module keeps tables
+    # whose size depends on the symbolic seed); calls made one after the other with other windows and dimensions are ground
+    # instances on the real module
+    hb = _front_history()
+    ctx.record("front end: 9 calls per method one after the other (windows and dimensions growing and shrinking) each return the points of their own seeds",
+               "counterexample" if hb else "holds", nontrivial=True, method="ground instances")
+    if hb:
+        ctx.violation("front:history", hb[0], {}, replay_front)
     if bad:
         ctx.violation("front:dispatch", "chmpy.sampling.quasirandom does not return the points of seeds seed..seed+d1-1", {}, replay_front)
